@@ -3,7 +3,11 @@ From Coq Require Import List NArith ZArith Bool Lia.
 From Coq Require String.
 Delimit Scope string_scope with string.
 Import String.StringSyntax.
-From NB Require Import Base.Json Base.PyStr Diff.DiffFormat Diff.Codec Merge.Render.
+From NB Require Import Base.Json.
+From NB Require Import Base.PyStr.
+From NB Require Import Diff.DiffFormat.
+From NB Require Import Diff.Codec.
+From NB Require Import Merge.Render.
 Import ListNotations.
 Local Open Scope N_scope.
 
